@@ -180,6 +180,14 @@ class C22(UICheck):
                    cmd("", ["/", "a", "b", "c"]), cmd("", ["bounds"]), cmd("", ["q", "now"]), cmd("", ["emulate", "x"])]
             for c in odd:
                 session(kind, [c, cmd("", ["d", "0"], [{"kind": "num", "v": 0}])])
+            # the same line entered again (immediately, and after another command): an answer - in particular an error
+            # answer - may not leave anything behind that breaks the next identical request
+            again = odd + [cmd("", ["find", "["]), cmd("", ["find", "("]), cmd("", ["/", "a\\"]), cmd("", ["find", "addi"], pat="addi"),
+                           cmd("", ["find", "nosuchtext"], pat="nosuchtext"), cmd("", ["goto", "zz"]), cmd("", ["goto", "999"], [{"kind": "num", "v": 999}]),
+                           cmd("", ["down", "-1"]), cmd("", ["move", "1", "x"]), cmd("", ["bounds", "zz"]), cmd("", ["bounds", "0"], [{"kind": "num", "v": 0}]),
+                           cmd("", ["move", "0", "1"], [{"kind": "num", "v": 0}, {"kind": "num", "v": 1}])]
+            for c in again:
+                session(kind, [c, c, cmd("", ["d", "1"], [{"kind": "num", "v": 1}]), c, {"case": "", "op": "render", "n": 8}])
             # emulator and memory view
             emu_lines = [["s"], ["step"], ["forward", "x"], ["memories"], ["ms", "1"], ["memory", "memory"], ["memory", "nokey"], ["m"],
                          ["regmod", "x1"], ["regmod", "nokey"], ["rmod"], ["q"], ["help"], ["nosuch"], [], ["down", "1"]]
@@ -195,6 +203,8 @@ class C22(UICheck):
                     session(kind, ls)
             for el in emu_lines:
                 session(kind, [cmd("", ["entry"]), cmd("", ["e"]), cmd("", el), cmd("", ["s"])])
+                if el != ["q"]:
+                    session(kind, [cmd("", ["entry"]), cmd("", ["e"]), cmd("", el), cmd("", el), cmd("", ["s"]), cmd("", el)])
             # what is typed at the emulator's value prompts (every later prompt of the session gets the same answer;
             # "a\n\nb": a malformed line, the line acknowledging the error message, then the prompt asks again): in range, exactly 2^(8w), far out of range in both
             # directions, other bases, very long
@@ -361,7 +371,8 @@ class C24(UICheck):
     rule = ("view states: the listing with the cursor on every line (4 programs), in disassembler and emulator mode "
             "(listing + register view composite, after 0-3 steps), the memory view (with and without memory); register "
             "views of 0..33 registers with and without ip; memory views of 8 layouts; composites regs+mem, mem+mem, "
-            "list+regs; granted heights MinLines..MinLines+6, MaxLines-1, MaxLines (never above a finite MaxLines) and "
+            "list+regs; memory views of 1-12 rows with the cursor on every row, granted fewer / as many / far more lines; "
+            "granted heights MinLines..MinLines+6, MaxLines-1, MaxLines (never above a finite MaxLines) and "
             "40 / 200 for unbounded views; judged: no panic, written lines <= granted, = declared height when "
             "MinLines = MaxLines; non-trivial = height >= MinLines; distinct by (state, height)")
     assumptions = ["heights below MinLines and above a finite MaxLines are excluded (view.Print never grants them)",
@@ -432,6 +443,22 @@ class C24(UICheck):
                     m = {"regs+mem": (nr + 1) // 2 + 5 + 1, "mem+mem": 11}[which]
                     gs.append([{"case": "p%d" % k[0], "op": "parts", "which": which, "nregs": nr, "withip": True, "stores": lay, "n": max(n, m) + (n % 3)}])
                     k[0] += 1
+        # the memory view itself with the cursor moved to every row (and beyond), granted less than, exactly and far more
+        # than it has rows
+        for li, lay in enumerate([[[i * 40, 8] for i in range(12)], [[0, 8], [4096, 8], [65536, 2]], [[5, 8]], [[16, 8], [24, 8], [32, 8]]]):
+            nrows = 2 * len(lay) + 1
+            for cur in range(0, nrows + 1):
+                gid = "mv%d_%d" % (li, cur)
+                g = [{"case": gid, "op": "memnew", "memkind": "sparse",
+                      "memstores": [{"addr": a8(a), "bytes": [(0x21 + 3 * j) % 256 for j in range(ln)], "layer": "over"} for a, ln in lay]}]
+                g.append(cmd(gid, [rng.choice(["goto", "g"]), str(cur)], [{"kind": "num", "v": cur}]))
+                for n in (5, 6, 7, 9, 12, 15, 20, 26, 40, 200):
+                    g.append({"case": gid, "op": "render", "n": n})
+                g.append(cmd(gid, ["down", "1"], [{"kind": "num", "v": 1}]))
+                g.append({"case": gid, "op": "render", "n": 15})
+                g.append(cmd(gid, ["up", "2"], [{"kind": "num", "v": 2}]))
+                g.append({"case": gid, "op": "render", "n": 7})
+                gs.append(g)
         for kind in range(4):
             L = listing_len(kind)
             for nr in (0, 3, 6):
@@ -450,7 +477,8 @@ class C32(UICheck):
     pid = "C32"
     whys = {"rowaddr", "rows", "cells", "address", "crash", "stuck"}
     rule = ("memories built from 1-5 constant stores (lengths 1-24, overlapping, adjacent, far apart, a row at address 0, "
-            "rows crossing 16-byte windows) as Sparse, Bytes and Overlay(Bytes, Sparse) (upper layer shadows the base), and "
+            "rows crossing 16-byte windows; exhaustively one range [s, e) at every position inside a window, alone and followed "
+            "by a second range) as Sparse, Bytes and Overlay(Bytes, Sparse) (upper layer shadows the base), and "
             "the absent memory; the rows of the memory view (ellipsis | window address + 16 cells) must be exactly the "
             "windows overlapping stored memory in address order with single ellipsis rows between non-consecutive "
             "windows, each cell the current byte or the absent mark; 'address A' for A stored / in a shown window / "
@@ -512,6 +540,29 @@ class C32(UICheck):
                 else:
                     g.append(cmd(gid, rng.choice([["a", "zz"], ["a"], [], ["help"], ["a", "-1"]])))
             gs.append(g)
+        # one row exhaustively: a stored range [s, e) at every position inside a 16-byte window (every boundary between
+        # stored and absent cells, in particular at the half-row separator and at the row's ends), alone and followed by
+        # a second range after a gap of one absent byte
+        k = 0
+        for w0 in (0, 48):
+            for st in range(16):
+                for en in range(st + 1, 17):
+                    if tier == "quick" and w0 == 48 and (st + en) % 3:
+                        continue
+                    for second in (False, True):
+                        if second and en + 2 > 16:
+                            continue
+                        gid = "w%d" % k
+                        k += 1
+                        stores = [{"addr": a8(w0 + st), "bytes": [(0x11 + 7 * j) % 256 for j in range(en - st)], "layer": "over"}]
+                        if second:
+                            stores.append({"addr": a8(w0 + en + 1), "bytes": [0xE0 + j for j in range(rng.randrange(1, 16 - en))],
+                                           "layer": "over"})
+                        g = [{"case": gid, "op": "memnew", "memkind": rng.choice(["sparse", "sparse", "overlay", "bytes"]),
+                              "memstores": stores}]
+                        for a in (w0 + st, w0 + en - 1):
+                            g.append(cmd(gid, ["a", str(a)], [{"kind": "num", "v": a}]))
+                        gs.append(g)
         return gs
 
 
